@@ -159,6 +159,7 @@ func TestSequential(t *testing.T) {
 		c := genCase(t)
 		st.Journal(map[string]any{"kind": "seq", "case": c})
 		if err := seqCase(c, st); err != nil {
+			ev.G().PinLast()
 			t.Fatalf("C01 violated: %v", err)
 		}
 	})
@@ -312,6 +313,7 @@ func TestConcurrent(t *testing.T) {
 		c := genConc(t)
 		st.Journal(map[string]any{"kind": "conc", "case": c})
 		if err := concCase(c, st); err != nil {
+			ev.G().PinLast()
 			t.Fatalf("C01 violated: %v", err)
 		}
 	})
@@ -341,6 +343,7 @@ func TestReplay(t *testing.T) {
 			t.Fatal(err)
 		}
 		if err := seqCase(c, nil); err != nil {
+			ev.G().PinLast()
 			t.Fatalf("C01 violated: %v", err)
 		}
 	case "conc":
@@ -350,6 +353,7 @@ func TestReplay(t *testing.T) {
 		}
 		for i := 0; i < 50; i++ {
 			if err := concCase(c, nil); err != nil {
+				ev.G().PinLast()
 				t.Fatalf("C01 violated: %v", err)
 			}
 		}
